@@ -447,6 +447,12 @@ class UpdateElem(Contract_):
 
     def apply(self, ex, args, kwargs, frame, node):
         ec = ex.inputs["self"].fields["ec"]
+        if ex.choose(2, "program table write: done / refused by the kernel") == 1:
+            # bpf.update_elem as written (C10): E2BIG becomes IndexError, any
+            # other errno stays the OSError; nothing is entered
+            e = ex.make_exc(OSError)
+            e.fields["errno"] = 9
+            raise PyRaise(e)
         ex.check(f"{ex.target_short}.register_sync_group[one table entry per group]",
                  ec.fields["g_registered"] is None, "the group is entered into the program table once")
         ec.fields["g_registered"] = args[1]
